@@ -22,10 +22,14 @@ lines += ["### 7.1 Independently written breaking changes (`seeded/`)", "",
           "Written by fresh sub-agents that were given only the property text and a scratch worktree (nothing from `/verif`); each was",
           "confirmed here (demo passes on the unchanged tree, fails with the patch, repository tests of the touched area still pass) before",
           "being kept.  'caught by' = quick checks that report a VIOLATION with the patch applied to `/repo`.", "",
-          "| seed | breaks | needs, in order to manifest | caught by | not caught by |", "|---|---|---|---|---|"]
+          "| seed | breaks | needs, in order to manifest | caught by (s) | not caught by | history |", "|---|---|---|---|---|---|"]
 for m in seeds:
     res = m.get("checks_with_patch", {})
-    lines.append(f"| {m['seed_id']} | {m['breaks_property']} | {m.get('needs_to_manifest', '')[:200]} | {', '.join(k for k, v in res.items() if v['caught']) or '-'} | {', '.join(k for k, v in res.items() if not v['caught']) or '-'} |")
+    lines.append(f"| {m['seed_id']} | {m['breaks_property']} | {m.get('needs_to_manifest', '')[:200]} | {', '.join(f"{k} ({v['seconds']:.0f})" for k, v in res.items() if v['caught']) or '-'} | {', '.join(k for k, v in res.items() if not v['caught']) or '-'} | {m.get('check_history', 'caught by the check as first built')} |")
+lines += ["", "The patches are applied with `git -C /repo apply seeded/<id>/patch.diff` and undone with `git -C /repo checkout -- .`;",
+          "`tools/seed_verify.py` repeats the whole confirmation in a scratch worktree.  Times include Hypothesis shrinking",
+          "(scenario-level cases shrink slowly; the first failing case is found in a fraction of the stated time) and were measured",
+          "with several verifications sharing the 16 cores."]
 txt = "\n".join(lines) + "\n\n"
 p = ROOT / "DESIGN.md"
 s = p.read_text()
